@@ -110,10 +110,16 @@ func ZZ_C03_da_blob() {
 	keyIsProposers := h.Signer.PubKey != nil && h.Signer.PubKey.Equals(e.pub)
 	zzsym.Region("own-key-under-proposer-address", !keyIsProposers)
 	m := e.zzManager(types.State{ChainID: e.chainID, InitialHeight: 1, LastBlockHeight: 4})
+	// arbitrary earlier traffic: the genuine header may already have been seen
+	// (synced over P2P) and/or marked
+	if zzsym.Bool("genuine-already-seen") {
+		m.headerCache.SetSeen(genuine.Hash().String())
+	}
 	m.handlePotentialHeader(context.Background(), zzHeaderBlob(h), 9)
 	if len(m.headerInCh) > 0 || m.headerCache.IsDAIncluded(h.Hash().String()) {
 		zzsym.Reach("taken")
 		zzsym.Assert(keyIsProposers, "da-header-taken-only-with-the-proposer-key")
+		zzsym.Assert(e.zzVerifies(h), "da-header-taken-only-if-signed-by-the-proposer")
 	} else {
 		zzsym.Reach("ignored")
 	}
